@@ -72,6 +72,61 @@ pub fn traverse_all(font: &Font, out: &mut Problems) -> usize {
     3_000_000 - budget
 }
 
+/// what the indices found in one layout table may refer to
+struct Refs { n_glyphs: usize, n_lookups: usize, n_features: usize, n_axes: usize, n_mark_sets: usize, ivs_counts: Vec<usize> }
+
+fn last_name(path: &str) -> &str { let p = path.rsplit('.').next().unwrap_or(path); p.split('[').next().unwrap_or(p) }
+
+/// second pass over GSUB / GPOS / GDEF: every glyph id, lookup index, feature index, axis index, mark-set index and
+/// variation index found anywhere in the table refers to something that exists
+fn refs_field<'a>(path: &str, f: FieldType<'a>, r: &Refs, out: &mut Problems, budget: &mut usize, ctx: &mut (Option<u16>, Option<u16>)) {
+    if *budget == 0 { return; }
+    *budget -= 1;
+    match f {
+        FieldType::GlyphId16(g) => { if g.to_u16() as usize >= r.n_glyphs { out.push(("glyph-id-out-of-range".into(), format!("{path}: {} of {}", g.to_u16(), r.n_glyphs))); } }
+        FieldType::U16(v) => match last_name(path) {
+            "lookup_list_index" | "lookup_list_indices" => { if v as usize >= r.n_lookups { out.push(("lookup-index-out-of-range".into(), format!("{path}: {v} of {}", r.n_lookups))); } }
+            "feature_indices" | "feature_index" => { if v as usize >= r.n_features { out.push(("feature-index-out-of-range".into(), format!("{path}: {v} of {}", r.n_features))); } }
+            "required_feature_index" => { if v != 0xFFFF && v as usize >= r.n_features { out.push(("feature-index-out-of-range".into(), format!("{path}: {v} of {}", r.n_features))); } }
+            "axis_index" => { if v as usize >= r.n_axes { out.push(("axis-index-out-of-range".into(), format!("{path}: {v} of {}", r.n_axes))); } }
+            "mark_filtering_set" => { if v as usize >= r.n_mark_sets { out.push(("mark-filtering-set-out-of-range".into(), format!("{path}: {v} of {}", r.n_mark_sets))); } }
+            "delta_set_outer_index" => ctx.0 = Some(v),
+            "delta_set_inner_index" => ctx.1 = Some(v),
+            _ => {}
+        },
+        FieldType::ResolvedOffset(ro) => { if let Ok(t) = ro.target { refs_table(&format!("{path}>{}", t.type_name()), &*t, r, out, budget); } }
+        FieldType::ArrayOffset(a) => { if let Ok(arr) = a.target { refs_array(path, &*arr, r, out, budget); } }
+        FieldType::Record(rec) => refs_table(path, &rec, r, out, budget),
+        FieldType::Array(a) => refs_array(path, &*a, r, out, budget),
+        _ => {}
+    }
+}
+fn refs_array<'a>(path: &str, a: &(dyn SomeArray<'a> + 'a), r: &Refs, out: &mut Problems, budget: &mut usize) {
+    let mut ctx = (None, None);
+    for (i, item) in a.iter().enumerate() { if *budget == 0 { return; } refs_field(&format!("{path}[{i}]"), item, r, out, budget, &mut ctx); }
+}
+fn refs_table<'a>(path: &str, t: &(dyn SomeTable<'a> + 'a), r: &Refs, out: &mut Problems, budget: &mut usize) {
+    let mut ctx = (None, None);
+    for field in t.iter() { if *budget == 0 { return; } refs_field(&format!("{path}.{}", field.name), field.value, r, out, budget, &mut ctx); }
+    // a VariationIndex table: (outer, inner) must name a delta set of the GDEF store
+    if let (Some(o), Some(i)) = ctx { if path.ends_with("VariationIndex") && (o as usize >= r.ivs_counts.len() || i as usize >= r.ivs_counts[o as usize]) { out.push(("variation-index-out-of-range".into(), format!("{path}: ({o}, {i}) with store item counts {:?}", r.ivs_counts))); } }
+}
+
+pub fn layout_references(font: &Font, out: &mut Problems) -> usize {
+    let n_glyphs = font.num_glyphs() as usize;
+    let n_axes = font.axes().len();
+    let (mut n_mark_sets, mut ivs_counts) = (0usize, vec![]);
+    if let Ok(gdef) = font.f.gdef() {
+        if let Some(Ok(ms)) = gdef.mark_glyph_sets_def() { n_mark_sets = ms.mark_glyph_set_count() as usize; }
+        if let Some(Ok(ivs)) = gdef.item_var_store() { ivs_counts = ivs.item_variation_data().iter().map(|d| match d { Some(Ok(d)) => d.item_count() as usize, _ => 0 }).collect(); }
+    }
+    let mut budget = 3_000_000usize;
+    if let Ok(t) = font.f.gsub() { let r = Refs { n_glyphs, n_axes, n_mark_sets, ivs_counts: ivs_counts.clone(), n_lookups: t.lookup_list().map(|l| l.lookup_count() as usize).unwrap_or(0), n_features: t.feature_list().map(|l| l.feature_count() as usize).unwrap_or(0) }; refs_table("GSUB", &t, &r, out, &mut budget); }
+    if let Ok(t) = font.f.gpos() { let r = Refs { n_glyphs, n_axes, n_mark_sets, ivs_counts: ivs_counts.clone(), n_lookups: t.lookup_list().map(|l| l.lookup_count() as usize).unwrap_or(0), n_features: t.feature_list().map(|l| l.feature_count() as usize).unwrap_or(0) }; refs_table("GPOS", &t, &r, out, &mut budget); }
+    if let Ok(t) = font.f.gdef() { let r = Refs { n_glyphs, n_axes, n_mark_sets, ivs_counts: ivs_counts.clone(), n_lookups: usize::MAX, n_features: usize::MAX }; refs_table("GDEF", &t, &r, out, &mut budget); }
+    3_000_000 - budget
+}
+
 pub const REQUIRED: &[&[u8; 4]] = &[b"cmap", b"head", b"hhea", b"hmtx", b"maxp", b"name", b"OS/2", b"post", b"glyf", b"loca"];
 
 /// returns (problems, number of nodes traversed)
@@ -79,7 +134,7 @@ pub fn check_font(data: &[u8]) -> (Problems, usize) {
     let mut out: Problems = sfnt::check_container(data);
     let font = match Font::new(data) { Ok(f) => f, Err(e) => { out.push(("sfnt-unparseable".into(), e)); return (out, 0); } };
     for t in REQUIRED { if !font.has(t) { out.push(("required-table-missing".into(), String::from_utf8_lossy(*t).to_string())); } }
-    let nodes = traverse_all(&font, &mut out);
+    let nodes = traverse_all(&font, &mut out) + layout_references(&font, &mut out);
     if out.iter().any(|(s, _)| s == "required-table-missing") { return (out, nodes); }
     if let Ok(head) = font.f.head() { let u = head.units_per_em(); if !(16..=16384).contains(&u) { out.push(("head-units-per-em-out-of-range".into(), format!("{u}"))); } }
     let n = font.num_glyphs() as usize;
